@@ -64,6 +64,7 @@ type modelState struct {
 	civilSeq       int
 	splitCalendar  bool
 	onceDone       map[*value]bool // sync.Once objects whose function has run on this path
+	longRun        bool            // verifrt.LongRun() was called: the step budget is already raised
 	nondetMapOrder bool // verifrt.NondetMapOrder: ranges over maps take an arbitrary one of two orders
 	exactFloat     bool
 	fpSh           map[int]fpShadow
